@@ -269,6 +269,7 @@ pub fn run_thr(trace: &Trace) -> (RunReport, Vec<u8>) {
         fair_after: usize::MAX,
         starve: None,
         starve_in_sync: false,
+        starve_stutter: None,
         budget: 20_000.max(200 * total_ops),
     });
     let policy = if !trace.schedule.is_empty() || trace.sched.is_none() {
@@ -285,6 +286,7 @@ pub fn run_thr(trace: &Trace) -> (RunReport, Vec<u8>) {
         fair_after: spec.fair_after,
         starve: if trace.schedule.is_empty() { spec.starve } else { None },
         starve_in_sync: spec.starve_in_sync,
+        starve_stutter: spec.starve_stutter,
     }));
     let out: Arc<Mutex<Vec<Rec>>> = Arc::new(Mutex::new(Vec::new()));
     let burst = trace.engine == Engine::Burst;
@@ -2121,6 +2123,15 @@ pub fn generate(pop: &str, seed: u64, run: u64) -> Option<Trace> {
             fair_after,
             starve,
             starve_in_sync: long_stall,
+            // half of the stalled maintenance threads are slow rather than stopped: they get a
+            // few steps now and then (a pass that has taken records out of the queue goes on
+            // holding them while the other threads refill the queue)
+            starve_stutter: if (burst_stall || long_stall) && Prng::new(mix(sub, 81, 0)).chance(1, 2) {
+                let mut r5 = Prng::new(mix(sub, 82, 0));
+                Some((r5.range(150, 900) as usize, r5.range(2, 12) as usize))
+            } else {
+                None
+            },
             budget,
         }),
         prologue,
